@@ -221,3 +221,150 @@ class CondEventReal:
 
     def close(self):
         self.env.close()
+
+
+# ---------------------------------------------------------------------------------------
+# C35: Queue / LifoQueue / PriorityQueue behind the Queue.tla action interface
+
+def _op_state(f):
+    """State name of a put / get / join future (Queue.tla's pst / gst / jst values)."""
+    if isinstance(f, str):
+        return f
+    if not f.done():
+        return "pending"
+    if f.cancelled():
+        return "cancelled"
+    e = f.exception()
+    if e is not None:
+        return "timedout" if type(e).__name__ == "TimeoutError" else "exc:" + type(e).__name__
+    return "ok"
+
+
+class QueueReal:
+    """Real tornado.queues.Queue / LifoQueue / PriorityQueue on the virtual loop.
+
+    The item of put call p with priority pr is the tuple (pr, p) - what Queue.tla calls <<pr, p>>.
+    style: timeouts are passed alternately as datetime.timedelta and as absolute deadlines; with
+    an odd style untimed gets go through the queue's async iterator (`q.__aiter__().__anext__()`)."""
+
+    KINDS = {"fifo": "Queue", "lifo": "LifoQueue", "prio": "PriorityQueue"}
+
+    def __init__(self, cfg, np_, ng, nj, style=0):
+        from tornado import queues
+        self.env = Env()
+        self.np, self.ng, self.nj = np_, ng, nj
+        self.q = getattr(queues, self.KINDS[cfg["kind"]])(maxsize=cfg["maxsize"])
+        self.it = self.q.__aiter__()
+        self.p, self.g, self.j = {}, {}, {}     # id -> future | terminal state name
+        self.gv = {}                            # get id -> item returned by get_nowait
+        self.dl = {}                            # ("p"|"g"|"j", id) -> relative timeout or None
+        self.err = "none"
+        self.style = style
+        self.calls = 0
+
+    def _timeout(self, to):
+        if to == NOTO:
+            return None
+        self.calls += 1
+        if (self.style + self.calls) & 1:
+            return datetime.timedelta(seconds=to)
+        return self.env.now + to
+
+    def pending(self, which):
+        d = {"p": self.p, "g": self.g, "j": self.j}[which]
+        return [k for k, f in d.items() if not isinstance(f, str) and not f.done()]
+
+    def timed_pending(self):
+        return [(w, k) for w in "pgj" for k in self.pending(w) if self.dl.get((w, k)) is not None]
+
+    @staticmethod
+    def _item(v):
+        if isinstance(v, tuple) and len(v) == 2 and all(isinstance(x, int) for x in v):
+            return list(v)
+        return ["?", repr(v)[:30]]
+
+    def proj(self):
+        pst = [_op_state(self.p[i]) if i in self.p else "idle" for i in range(1, self.np + 1)]
+        gst = [_op_state(self.g[i]) if i in self.g else "idle" for i in range(1, self.ng + 1)]
+        jst = [_op_state(self.j[i]) if i in self.j else "idle" for i in range(1, self.nj + 1)]
+        gval = []
+        for i in range(1, self.ng + 1):
+            if i in self.gv:
+                gval.append(self._item(self.gv[i]))
+            elif gst[i - 1] == "ok":
+                gval.append(self._item(self.g[i].result()))
+            else:
+                gval.append([])
+        try:
+            size, empty, full = self.q.qsize(), self.q.empty(), self.q.full()
+        except Exception as e:
+            size, empty, full = "exc:" + type(e).__name__, None, None
+        return {"pst": pst, "gst": gst, "gval": gval, "jst": jst, "qsize": size, "empty": empty, "full": full,
+                "err": self.err}
+
+    def step(self, act, args):
+        self.err = "none"
+        try:
+            if act == "put":
+                p, pr, to = args
+                self.p[p] = "raised"
+                self.dl[("p", p)] = None if to == NOTO else to
+                self.p[p] = self.q.put((pr, p), self._timeout(to))
+            elif act == "put_nowait":
+                p, pr = args
+                self.p[p] = "raised"
+                try:
+                    self.q.put_nowait((pr, p))
+                    self.p[p] = "ok"
+                except Exception as e:
+                    self.p[p] = "full" if type(e).__name__ == "QueueFull" else "exc:" + type(e).__name__
+                    raise
+            elif act == "get":
+                g, to = args
+                self.g[g] = "raised"
+                self.dl[("g", g)] = None if to == NOTO else to
+                if to == NOTO and self.style & 1:
+                    self.g[g] = self.it.__anext__()
+                else:
+                    self.g[g] = self.q.get(self._timeout(to))
+            elif act == "get_nowait":
+                g = args[0]
+                self.g[g] = "raised"
+                try:
+                    self.gv[g] = self.q.get_nowait()
+                    self.g[g] = "ok"
+                except Exception as e:
+                    self.g[g] = "empty" if type(e).__name__ == "QueueEmpty" else "exc:" + type(e).__name__
+                    raise
+            elif act == "task_done":
+                self.q.task_done()
+            elif act == "join":
+                j, to = args
+                self.j[j] = "raised"
+                self.dl[("j", j)] = None if to == NOTO else to
+                self.j[j] = self.q.join(self._timeout(to))
+            elif act == "advance":
+                self.env.advance(args[0])
+            elif act == "cancel_put":
+                self.p[args[0]].cancel()
+            elif act == "cancel_get":
+                self.g[args[0]].cancel()
+            elif act == "cancel_join":
+                self.j[args[0]].cancel()
+            else:
+                raise ValueError(act)
+        except Exception as e:      # any exception of the real call is an observation, never a harness crash
+            self.err = type(e).__name__
+        self.env.settle()
+        if self.env.loop.uncaught:
+            self.err = "uncaught:" + str(self.env.loop.uncaught[0].get("message"))[:60]
+            del self.env.loop.uncaught[:]
+        return self.proj()
+
+    def close(self):
+        # retrieve exceptions so that dropping the futures does not log through the closed loop
+        for d in (self.p, self.g, self.j):
+            for f in d.values():
+                if not isinstance(f, str) and f.done() and not f.cancelled():
+                    f.exception()
+        self.env.close()
